@@ -372,6 +372,14 @@ func (m *Model) advance(i *Inst, vis map[*Inst]bool) bool {
 					return changed
 				}
 				if c.failed {
+					if i.T.IgnoreError && exitRooted(c) {
+						// task-level ignore_error covers a task-call command too when the callee's failure
+						// is a command's exit status (interp.IsExitStatus sees through the wrapping)
+						i.hadIgnored = true
+						i.pc++
+						changed = true
+						continue
+					}
 					m.fail(i, "callee", c)
 					i.phase = phDefers
 					i.dpc = len(i.reg) - 1
@@ -411,6 +419,22 @@ func (m *Model) advance(i *Inst, vis map[*Inst]bool) bool {
 			return changed
 		}
 	}
+}
+
+// exitRooted reports whether the failure of i is, at its root, a command that exited non-zero (as opposed
+// to a guard, or a cancellation): only such failures are covered by the ignore_error of a calling task.
+func exitRooted(i *Inst) bool {
+	for n := 0; i != nil && n < 100; i, n = i.causeBy, n+1 {
+		switch {
+		case i.cause == "own":
+			return true
+		case i.cause == "dep" || i.cause == "callee":
+			continue
+		default:
+			return false
+		}
+	}
+	return false
 }
 
 type slot struct {
